@@ -89,7 +89,7 @@ def stream_events(tid, ops, lg):
     if len(ops) != len(cmds):
         raise MachineryError("pairing: %d operations in the stream, %d high-level commands" % (len(ops), len(cmds)))
     hdr = {"t": tid, "e": "Hdr", "n": 0, "model": False, "ops": []}
-    index = {}            # pass name -> operator index, or None when the operator is outside the scope
+    index = {}            # pass identity -> operator index, or None when the operator is outside the scope
     svs = []
     stats = {"stripes": 0, "skipped_ops": 0, "unchecked_ops": 0, "rolling_reads": 0}
     for q, (o, c) in enumerate(zip(ops, cmds)):
@@ -97,17 +97,18 @@ def stream_events(tid, ops, lg):
             raise MachineryError("pairing: operation %d is %s but the command is %s" % (q, o["kind"], c["type"]))
         if c["type"] != "stripe":
             continue
-        if c["name"] not in index:
+        key = c.get("pid", c["name"])     # pass identity (pass names repeat: the copies a SPLIT is lowered to share one name)
+        if key not in index:
             geo = op_geometry(c)
             if geo is None:
-                index[c["name"]] = None
+                index[key] = None
                 stats["skipped_ops"] += 1
             else:
-                index[c["name"]] = len(hdr["ops"])
+                index[key] = len(hdr["ops"])
                 geo["name"], geo["optype"] = c["name"], c["op"]
                 hdr["ops"].append(geo)
                 stats["unchecked_ops"] += 0 if geo["chk"] else 1
-        i = index[c["name"]]
+        i = index[key]
         if i is None:
             continue
         geo = hdr["ops"][i]
